@@ -7,7 +7,40 @@ use owlchess::movegen;
 use owlchess::Board;
 
 pub fn check_pos(ctx: &mut Ctx, mp: &MPos, b: &Board) {
-    let case = format!("pos:{}", mfen::to_xfen(mp));
+    queries(ctx, mp, b, "");
+    // the same queries on boards with a history: this board after every semilegal move has been
+    // applied and undone on it (as a search does), and one successor reached by a real move
+    if ctx.cases % 3 == 0 || ctx.is_replay {
+        let mut bb = b.clone();
+        let r = crate::ctx::catch(|| {
+            for mv in owlchess::movegen::semilegal::gen_all(b).iter() {
+                unsafe {
+                    let u = owlchess::moves::make_move_unchecked(&mut bb, *mv);
+                    owlchess::moves::unmake_move_unchecked(&mut bb, *mv, u);
+                }
+            }
+        });
+        if r.is_ok() {
+            queries(ctx, mp, &bb, "|after_make_unmake_of_all_moves");
+            ctx.feature("boards_with_history");
+        }
+        let legal = mp.legal_moves();
+        if !legal.is_empty() {
+            let m = *ctx.rng.pick(&legal);
+            if let Some(lm) = crate::conv::to_move(&m) {
+                if let Some(Ok(nb)) = ctx.guard("make_move", &format!("pos:{}", mfen::to_xfen(mp)), || b.make_move(lm)) {
+                    let want = mp.apply(&m);
+                    if crate::conv::from_raw(nb.raw()) == want {
+                        queries(ctx, &want, &nb, &format!("|after:{}", m.uci()));
+                    }
+                }
+            }
+        }
+    }
+}
+
+fn queries(ctx: &mut Ctx, mp: &MPos, b: &Board, suffix: &str) {
+    let case = format!("pos:{}{}", mfen::to_xfen(mp), suffix);
     let mut attacked_any = 0u32;
     let mut multi = false;
     for s in 0..64u8 {
